@@ -302,6 +302,11 @@ def cons_panel(tier):
         add(2, box, _quad(2, r, mn=[2.5, -2.0]), {"family": "ball", "c": [0.0, 0.0], "r": 1.5, "float": True}, tags=["ball", "floatcons"])
         add(2, S.box_geom(2, -4, 4, -2, 2, x0=[0.0, 0.0]), _quad(2, r, mn=[3.0, 0.0]),
             {"family": "halfspace", "w": [1.0, 0.0], "b": 1.0, "float": True}, options={"max_fun_evals": 90}, tags=["halfspace", "floatcons", "onmesh_boundary"])
+        # option-specific branches of the poll step: poll points forced onto the search mesh
+        add(2, box, _quad(2, r, mn=[2.5, -2.0]), {"family": "ball", "c": [0.0, 0.0], "r": 1.5},
+            options={"force_poll_mesh": True, "max_fun_evals": 80}, tags=["ball", "force_poll_mesh"])
+        add(2, box, _quad(2, r, mn=[3.0, 3.0]), {"family": "halfspace", "w": [1.0, 1.0], "b": 2.0},
+            options={"force_poll_mesh": True, "max_fun_evals": 80, "complete_poll": True}, tags=["halfspace", "force_poll_mesh", "complete_poll"])
         # candidate sets that shrink to a single row: 1-D problems next to a bound, one-point initial designs
         add(1, {"lb": [0.0], "ub": [10.0], "plb": [1.0], "pub": [9.0], "x0": [9.5]}, {"family": "quad", "min": [2.0], "eig": [1.0], "rot_seed": 0},
             {"family": "halfspace", "w": [-1.0], "b": -6.0}, options={"max_fun_evals": 50}, tags=["d1", "single_row"])
@@ -397,6 +402,15 @@ def steer_panel(tier):
         add(2, box, _quad(2, r), options={"_output_fcn": "never", "max_fun_evals": 40}, tags=["output_fcn"])
         add(2, box, _quad(2, r, cond=4.0), noise={"mode": "declared", "sigma": 0.5},
             options={"_output_fcn": "stop_init", "max_fun_evals": 60, "noise_final_samples": 2}, tags=["output_fcn", "stop_init", "declared"])
+        # noisy runs that end within their first poll iteration, with and without final samples
+        for mode in ("declared", "auto", "specified"):
+            nz = {"mode": mode, "sigma": 0.5, "sd_kind": "const"}
+            add(2, box, _quad(2, r, cond=4.0), noise=nz, options={"max_iter": 1, "noise_final_samples": 0, "max_fun_evals": 80},
+                tags=["first_iteration_end", "nofinal", mode])
+            add(2, box, _quad(2, r, cond=4.0), noise=nz, options={"max_iter": 1, "noise_final_samples": 2, "max_fun_evals": 80},
+                tags=["first_iteration_end", mode])
+        add(2, box, _quad(2, r, cond=4.0), noise={"mode": "declared", "sigma": 0.5}, options={"noise_final_samples": 0, "max_fun_evals": 34},
+            tags=["first_iteration_end", "nofinal", "declared", "budget_eq_init"])
         # stochastic MADS success rule
         add(2, box, _quad(2, r, cond=4.0), noise={"mode": "declared", "sigma": 0.5},
             options={"stobads": True, "max_fun_evals": 80, "noise_final_samples": 2}, tags=["stobads"])
@@ -463,6 +477,7 @@ def optvar_panel(tier):
         o["tol_fun"] = r.choice([1e-3, 1e-2, 1e-5])
         o["tol_mesh"] = r.choice([1e-6, 1e-4, 1e-3])
         o["n_search_iter"] = r.choice([1, 2, 3])
+        o["force_poll_mesh"] = r.random() < 0.3
         o["max_fun_evals"] = r.choice([60, 90, 130])
         if j % 5 == 4:
             o["poll_mesh_multiplier"] = r.choice([4.0, 3.0])
